@@ -874,9 +874,23 @@ def _gen_nt(b, mod):
 
 def _gen_tt(b, mod):
     draw = b.draw
-    name = b.names.lower()
+    pre = []
     cands = b.visible_nodes(mod)
-    n = draw(st.sampled_from(cands))
+    if draw(st.integers(0, 3)) == 0:
+        # an enterprise node of its own whose last sub-identifier is 0 (the trap OID then carries two zeros)
+        oid, num = b.new_oid(mod)
+        num0 = tuple(num[:-1]) + (0,)
+        if num0 not in b.used_oids:
+            b.used_oids.add(num0)
+            oid['arcs'][-1] = ['n', 0] if oid['arcs'][-1][0] == 'n' else [oid['arcs'][-1][0], oid['arcs'][-1][1], 0]
+            num = num0
+        ename = b.names.lower()
+        b.reg_node(mod, ename, num)
+        pre = [{'k': 'value', 'name': ename, 'oid': oid, 'num': list(num)}]
+        n = {'module': mod['name'], 'name': ename, 'oid': tuple(num)}
+    else:
+        n = draw(st.sampled_from(cands))
+    name = b.names.lower()
     number = draw(st.one_of(st.integers(0, 20), st.sampled_from((0, 1, 6, 255, 65535, U32))))
     num = tuple(n['oid']) + (0, number)
     while num in b.used_oids:
@@ -885,8 +899,8 @@ def _gen_tt(b, mod):
     b.used_oids.add(num)
     vars_ = _pick_refs(b, mod, [o for o in b.objects if o['role'] in ('scalar', 'column')], 0, 5)
     b.notifs.append({'module': mod['name'], 'name': name})
-    return [{'k': 'tt', 'name': name, 'enterprise': [n['module'], n['name']], 'vars': vars_, 'descr': b.opt_txt(),
-             'ref': b.opt_txt(), 'number': number, 'num': list(num)}]
+    return pre + [{'k': 'tt', 'name': name, 'enterprise': [n['module'], n['name']], 'vars': vars_, 'descr': b.opt_txt(),
+                   'ref': b.opt_txt(), 'number': number, 'num': list(num)}]
 
 
 def _gen_og(b, mod):
